@@ -1,39 +1,13 @@
-(* C10: folding preserves evaluation.  The folder and the evaluator are both driven by tables
-   regenerated from the Rust source; the proof checks the regenerated fold rules against a
-   whitelist of rule shapes (rule_okb / urule_okb, by computation) and proves every whitelisted
-   shape sound against the evaluator's arithmetic arms (characterised by computation on the
-   regenerated arm table: arith_int_int, arith_float_float, neg_int, neg_float). *)
+(* C10: folding preserves evaluation on every expression in which no rule outside the whitelist
+   Model.rule_okb fires (Model.identity_fires e = false).  The folder and the evaluator are both
+   driven by tables regenerated from the Rust source; every whitelisted rule shape is proved sound
+   against the evaluator's arithmetic arms (characterised by computation on the regenerated arm
+   table: arith_int_int, arith_float_float, neg_int, neg_float); the unary rules must all be
+   whitelisted (fold_unary_rules_ok, by computation). *)
 From VP Require Import Base.Tactics Expr.Syntax Expr.Float Expr.Gen_EvalTables Expr.Gen_FoldRules Expr.Model Expr.ProofsBase.
 Local Open Scope Z_scope.
 
-Definition int_pair (op : binop) (o : iop2) : bool :=
-  match op, o with Add, IAdd | Sub, ISub | Mul, IMul | Div, IDiv | Mod, IRem => true | _, _ => false end.
-Definition float_rule (op : binop) (o : fop2) (g : fguard) : bool :=
-  match op, o with
-  | Add, FAdd | Sub, FSub | Mul, FMul => true
-  | Div, FDiv => match g with FGRightFloatNZ => true | _ => false end
-  | _, _ => false
-  end.
-(* the rule shapes that are sound whatever the operands are: both operands literal, the action
-   computes what the evaluator computes (checked i64 operation, the evaluator's own Int ** Int
-   formula, the float operation, float division only for a non-zero divisor) *)
-Definition rule_okb (r : frule) : bool :=
-  match fr_l r, fr_r r, fr_act r with
-  | PIntAny, PIntAny, FAInt Checked o => int_pair (fr_op r) o
-  | PIntAny, PIntAny, FAPowEval => binop_eqb (fr_op r) Pow
-  | PFloatAny, PFloatAny, FAFloat o => float_rule (fr_op r) o (fr_g r)
-  | _, _, _ => false
-  end.
-Definition urule_okb (r : unop * lpat * uaction) : bool :=
-  match r with
-  | (Neg, PIntAny, UAInt Checked) => true
-  | (Neg, PFloatAny, UAFloat) => true
-  | _ => false
-  end.
-
 (* facts about the regenerated tables *)
-Lemma fold_phases_ok : forallb (forallb rule_okb) fold_phases = true.
-Proof. vm_compute. reflexivity. Qed.
 Lemma fold_unary_rules_ok : forallb urule_okb fold_unary_rules = true.
 Proof. vm_compute. reflexivity. Qed.
 
@@ -124,42 +98,51 @@ Proof.
     cbn in Hok. destruct g; try discriminate Hok. cbn in Hg. rewrite Hg. reflexivity.
 Qed.
 
-Lemma pick_rule_sound : forall rules op l r env,
-  forallb rule_okb rules = true ->
-  match pick_rule O rules op l r with
-  | Val e' => eval env e' = eval env (EBin O op l r) /\ is_lit e'
-  | NoVal => True
-  | Panic => False
-  end.
+Lemma pick_rule_select : forall rules op l r,
+  pick_rule O rules op l r =
+  match select_rule O rules op l r with Some ru => act_apply O (fr_act ru) l r | None => NoVal end.
 Proof.
-  induction rules as [|ru rules IH]; intros op l r env H; cbn [pick_rule]; [exact I|].
-  cbn [forallb] in H. apply andb_true_iff in H. destruct H as [Hru Hrest].
-  destruct (binop_eqb (fr_op ru) op && pat_matches O (fr_l ru) l && pat_matches O (fr_r ru) r && fguard_holds O (fr_g ru) r) eqn:E.
-  - apply andb_true_iff in E. destruct E as [E Hg]. apply andb_true_iff in E. destruct E as [E Hr].
-    apply andb_true_iff in E. destruct E as [Hop Hl]. now apply rule_sound.
+  induction rules as [|ru rules IH]; intros op l r; cbn [pick_rule select_rule]; [reflexivity|].
+  destruct (binop_eqb (fr_op ru) op && pat_matches O (fr_l ru) l && pat_matches O (fr_r ru) r && fguard_holds O (fr_g ru) r);
+    [reflexivity | apply IH].
+Qed.
+
+Lemma select_rule_matches : forall rules op l r ru,
+  select_rule O rules op l r = Some ru ->
+  binop_eqb (fr_op ru) op = true /\ pat_matches O (fr_l ru) l = true /\ pat_matches O (fr_r ru) r = true /\
+  fguard_holds O (fr_g ru) r = true.
+Proof.
+  induction rules as [|r0 rules IH]; intros op l r ru H; cbn [select_rule] in H; [discriminate|].
+  destruct (binop_eqb (fr_op r0) op && pat_matches O (fr_l r0) l && pat_matches O (fr_r r0) r && fguard_holds O (fr_g r0) r) eqn:E.
+  - inversion H; subst r0. apply andb_true_iff in E. destruct E as [E Hg]. apply andb_true_iff in E. destruct E as [E Hr].
+    apply andb_true_iff in E. destruct E as [Hop Hl]. auto.
   - now apply IH.
 Qed.
 
 Lemma run_phases_sound : forall phases op l r,
-  forallb (forallb rule_okb) phases = true ->
+  rule_fires O phases op l r = false ->
   exists e', run_phases O phases op l r = Some e' /\
              (forall env, eval env e' = eval env (EBin O op l r)) /\ (e' = EBin O op l r \/ is_lit e').
 Proof.
   induction phases as [|ph phases IH]; intros op l r H; cbn [run_phases].
   - eexists; split; [reflexivity|]. split; [reflexivity | left; reflexivity].
-  - cbn [forallb] in H. apply andb_true_iff in H. destruct H as [Hph Hrest].
-    destruct (pick_rule O ph op l r) as [e'| |] eqn:E.
+  - cbn [rule_fires] in H. rewrite pick_rule_select.
+    destruct (select_rule O ph op l r) as [ru|] eqn:Sel; [|now apply IH].
+    destruct (rule_okb ru) eqn:Hok; [|discriminate].
+    destruct (select_rule_matches _ _ _ _ _ Sel) as [Hop [Hl [Hr Hg]]].
+    destruct (act_apply O (fr_act ru) l r) as [e'| |] eqn:E.
     + exists e'. split; [reflexivity|]. split.
-      * intro env. pose proof (pick_rule_sound ph op l r env Hph) as S. rewrite E in S. apply S.
-      * right. pose proof (pick_rule_sound ph op l r (mkEvent O [] []) Hph) as S. rewrite E in S. apply S.
+      * intro env. pose proof (rule_sound ru op l r env Hok Hop Hl Hr Hg) as S. rewrite E in S. apply S.
+      * right. pose proof (rule_sound ru op l r (mkEvent O [] []) Hok Hop Hl Hr Hg) as S. rewrite E in S. apply S.
     + now apply IH.
-    + pose proof (pick_rule_sound ph op l r (mkEvent O [] []) Hph) as S. rewrite E in S. contradiction.
+    + pose proof (rule_sound ru op l r (mkEvent O [] []) Hok Hop Hl Hr Hg) as S. rewrite E in S. contradiction.
 Qed.
 
 Lemma fold_binary_sound : forall op l r,
+  rule_fires O fold_phases op l r = false ->
   exists e', fold_binary O op l r = Some e' /\
              (forall env, eval env e' = eval env (EBin O op l r)) /\ (e' = EBin O op l r \/ is_lit e').
-Proof. intros. apply run_phases_sound, fold_phases_ok. Qed.
+Proof. intros. now apply run_phases_sound. Qed.
 
 Lemma pick_urule_sound : forall rules op x env,
   forallb urule_okb rules = true ->
@@ -234,65 +217,83 @@ Qed.
 
 Definition sound (e e' : expr) : Prop := (forall env, eval env e' = eval env e) /\ same_head e e'.
 
-Theorem fold_sound : forall e, exists e', fold O e = Some e' /\ sound e e'.
+Lemma existsb_false_Forall : forall A (f : A -> bool) l, existsb f l = false -> Forall (fun x => f x = false) l.
 Proof.
-  induction e using expr_ind2; cbn [fold];
+  intros A f l. induction l as [|x l IH]; cbn; intro H; constructor.
+  - apply orb_false_iff in H. apply H.
+  - apply IH. apply orb_false_iff in H. apply H.
+Qed.
+
+Lemma Forall_mp : forall A (P Q : A -> Prop) l, Forall (fun x => P x -> Q x) l -> Forall P l -> Forall Q l.
+Proof. intros A P Q l H. induction H; intro HP; inversion HP; subst; constructor; auto. Qed.
+
+Theorem fold_sound : forall e, identity_fires O e = false -> exists e', fold O e = Some e' /\ sound e e'.
+Proof.
+  induction e using expr_ind2; cbn [fold identity_fires]; intro NF;
     try (eexists; split; [reflexivity|]; split; [reflexivity | cbn; try reflexivity; intros; discriminate]).
   - (* array *)
-    destruct (fold_list_sound _ (fold O) sound l H) as [l' [Hl R]]. rewrite Hl. cbn [obind].
+    pose proof (Forall_mp _ _ _ _ H (existsb_false_Forall _ _ _ NF)) as H'.
+    destruct (fold_list_sound _ (fold O) sound l H') as [l' [Hl R]]. rewrite Hl. cbn [obind].
     eexists; split; [reflexivity|]. split; [|cbn; intros; discriminate].
     intro env. cbn [eval Model.eval]. erewrite eval_filter_congr; [reflexivity|].
     eapply Forall2_imp; [|exact R]. intros a b [S _]. apply S.
   - (* map *)
+    pose proof (Forall_mp _ _ _ _ H (existsb_false_Forall _ _ _ NF)) as H'.
     set (f := fun kv : str * expr => obind (fold O (snd kv)) (fun x' => Some (fst kv, x'))).
     assert (Hf : Forall (fun x => exists x', f x = Some x' /\ (fst x' = fst x /\ sound (snd x) (snd x'))) l).
-    { eapply Forall_impl; [|exact H]. intros [k x] [x' [Hx S]]. exists (k, x'). unfold f. cbn [snd fst] in *.
+    { eapply Forall_impl; [|exact H']. intros [k x] [x' [Hx S]]. exists (k, x'). unfold f. cbn [snd fst] in *.
       rewrite Hx. cbn. auto. }
     destruct (fold_list_sound _ f _ l Hf) as [l' [Hl R]]. rewrite Hl. cbn [obind].
     eexists; split; [reflexivity|]. split; [|cbn; intros; discriminate].
     intro env. cbn [eval Model.eval]. erewrite eval_entries_congr; [reflexivity|].
     eapply Forall2_imp; [|exact R]. intros a b [K [S _]]. split; [exact K | apply S].
   - (* binary *)
-    destruct IHe1 as [l' [Hl [Sl _]]]. destruct IHe2 as [r' [Hr [Sr _]]]. rewrite Hl, Hr. cbn [obind].
-    destruct (fold_binary_sound op l' r') as [e' [He [Se Hd]]]. exists e'. split; [exact He|]. split.
+    apply orb_false_iff in NF. destruct NF as [NF NF3]. apply orb_false_iff in NF. destruct NF as [NF1 NF2].
+    destruct (IHe1 NF1) as [l' [Hl [Sl _]]]. destruct (IHe2 NF2) as [r' [Hr [Sr _]]]. rewrite Hl, Hr in *. cbn [obind].
+    destruct (fold_binary_sound op l' r' NF3) as [e' [He [Se Hd]]]. exists e'. split; [exact He|]. split.
     + intro env. rewrite Se. cbn [eval Model.eval]. rewrite Sl, Sr. reflexivity.
     + cbn. intro s. destruct Hd as [->|Hd]; [discriminate | now apply lit_not_ident].
   - (* unary *)
-    destruct IHe as [x' [Hx [Sx _]]]. rewrite Hx. cbn [obind].
+    destruct (IHe NF) as [x' [Hx [Sx _]]]. rewrite Hx. cbn [obind].
     destruct (fold_unary_sound op x') as [e' [He [Se Hd]]]. exists e'. split; [exact He|]. split.
     + intro env. rewrite Se. cbn [eval Model.eval]. rewrite Sx. reflexivity.
     + cbn. intro s. destruct Hd as [->|Hd]; [discriminate | now apply lit_not_ident].
   - (* member *)
-    destruct IHe as [x' [Hx [Sx Hh]]]. rewrite Hx. cbn [obind].
+    destruct (IHe NF) as [x' [Hx [Sx Hh]]]. rewrite Hx. cbn [obind].
     eexists; split; [reflexivity|]. split; [|cbn; intros; discriminate].
     intro env. cbn [eval Model.eval]. now apply eval_member_congr.
   - (* optional member *)
-    destruct IHe as [x' [Hx _]]. rewrite Hx. cbn [obind].
+    destruct (IHe NF) as [x' [Hx _]]. rewrite Hx. cbn [obind].
     eexists; split; [reflexivity|]. split; [reflexivity | cbn; intros; discriminate].
   - (* index *)
-    destruct IHe1 as [x' [Hx [Sx _]]]. destruct IHe2 as [i' [Hi [Si _]]]. rewrite Hx, Hi. cbn [obind].
+    apply orb_false_iff in NF. destruct NF as [NF1 NF2].
+    destruct (IHe1 NF1) as [x' [Hx [Sx _]]]. destruct (IHe2 NF2) as [i' [Hi [Si _]]]. rewrite Hx, Hi. cbn [obind].
     eexists; split; [reflexivity|]. split; [|cbn; intros; discriminate].
     intro env. cbn [eval Model.eval]. rewrite Sx, Si. reflexivity.
   - (* slice *)
-    destruct IHe as [x' [Hx [Sx _]]]. rewrite Hx. cbn [obind].
-    assert (Hopt : forall o, (forall y, o = Some y -> exists y', fold O y = Some y' /\ sound y y') ->
+    apply orb_false_iff in NF. destruct NF as [NF NF3]. apply orb_false_iff in NF. destruct NF as [NF1 NF2].
+    destruct (IHe NF1) as [x' [Hx [Sx _]]]. rewrite Hx. cbn [obind].
+    assert (Hopt : forall o, (forall y, o = Some y -> identity_fires O y = false -> exists y', fold O y = Some y' /\ sound y y') ->
+              match o with Some y => identity_fires O y | None => false end = false ->
               exists o', match o with None => Some None | Some y => obind (fold O y) (fun y' => Some (Some y')) end = Some o' /\
                          forall env d, opt_int O (eval env) o' d = opt_int O (eval env) o d).
-    { intros [y|] Hy.
-      - destruct (Hy y eq_refl) as [y' [Hy' [Sy _]]]. exists (Some y'). rewrite Hy'. split; [reflexivity|].
+    { intros [y|] Hy Hn.
+      - destruct (Hy y eq_refl Hn) as [y' [Hy' [Sy _]]]. exists (Some y'). rewrite Hy'. split; [reflexivity|].
         intros env d. cbn. rewrite Sy. reflexivity.
       - exists None. split; reflexivity. }
-    destruct (Hopt s H) as [s' [Hs Ss]]. destruct (Hopt en H0) as [en' [Hen Sen]].
+    destruct (Hopt s H NF2) as [s' [Hs Ss]]. destruct (Hopt en H0 NF3) as [en' [Hen Sen]].
     rewrite Hs. cbn [obind]. rewrite Hen. cbn [obind].
     eexists; split; [reflexivity|]. split; [|cbn; intros; discriminate].
     intro env. cbn [eval Model.eval]. rewrite Sx, Ss.
     destruct (eval env e); try reflexivity. destruct (opt_int O (eval env) s 0); try reflexivity.
     destruct a; try reflexivity; rewrite Sen; reflexivity.
   - (* call *)
-    destruct IHe as [f' [Hf [Sf Hh]]]. rewrite Hf. cbn [obind].
+    apply orb_false_iff in NF. destruct NF as [NF1 NF2].
+    destruct (IHe NF1) as [f' [Hf [Sf Hh]]]. rewrite Hf. cbn [obind].
+    pose proof (Forall_mp _ _ _ _ H (existsb_false_Forall _ _ _ NF2)) as H'.
     set (g := fun a : option str * expr => obind (fold O (snd a)) (fun x' => Some (fst a, x'))).
     assert (Hg : Forall (fun x => exists x', g x = Some x' /\ (forall env, eval env (snd x') = eval env (snd x))) args).
-    { eapply Forall_impl; [|exact H]. intros [k x] [x' [Hx [S _]]]. exists (k, x'). unfold g. cbn [snd fst] in *.
+    { eapply Forall_impl; [|exact H']. intros [k x] [x' [Hx [S _]]]. exists (k, x'). unfold g. cbn [snd fst] in *.
       rewrite Hx. cbn. auto. }
     destruct (fold_list_sound _ g _ args Hg) as [args' [Ha R]]. rewrite Ha. cbn [obind].
     eexists; split; [reflexivity|]. split; [|cbn; intros; discriminate].
@@ -303,26 +304,31 @@ Proof.
     destruct e; cbn in Hh; try (subst f'; rewrite Hargs; reflexivity);
       (destruct f'; try reflexivity; exfalso; eapply Hh; reflexivity).
   - (* lambda *)
-    destruct IHe as [b' [Hb _]]. rewrite Hb. cbn [obind].
+    destruct (IHe NF) as [b' [Hb _]]. rewrite Hb. cbn [obind].
     eexists; split; [reflexivity|]. split; [reflexivity | cbn; intros; discriminate].
   - (* if *)
-    destruct IHe1 as [c' [Hc [Sc _]]]. destruct IHe2 as [t' [Ht [St _]]]. destruct IHe3 as [el' [Hel [Sel _]]].
+    apply orb_false_iff in NF. destruct NF as [NF NF3]. apply orb_false_iff in NF. destruct NF as [NF1 NF2].
+    destruct (IHe1 NF1) as [c' [Hc [Sc _]]]. destruct (IHe2 NF2) as [t' [Ht [St _]]]. destruct (IHe3 NF3) as [el' [Hel [Sel _]]].
     rewrite Hc, Ht, Hel. cbn [obind].
     eexists; split; [reflexivity|]. split; [|cbn; intros; discriminate].
     intro env. cbn [eval Model.eval]. rewrite Sc, St, Sel. reflexivity.
   - (* coalesce *)
-    destruct IHe1 as [x' [Hx [Sx _]]]. destruct IHe2 as [d' [Hd [Sd _]]]. rewrite Hx, Hd. cbn [obind].
+    apply orb_false_iff in NF. destruct NF as [NF1 NF2].
+    destruct (IHe1 NF1) as [x' [Hx [Sx _]]]. destruct (IHe2 NF2) as [d' [Hd [Sd _]]]. rewrite Hx, Hd. cbn [obind].
     eexists; split; [reflexivity|]. split; [|cbn; intros; discriminate].
     intro env. cbn [eval Model.eval]. rewrite Sx, Sd. reflexivity.
   - (* range *)
-    destruct IHe1 as [s' [Hs [Ss _]]]. destruct IHe2 as [en' [Hen [Sen _]]]. rewrite Hs, Hen. cbn [obind].
+    apply orb_false_iff in NF. destruct NF as [NF1 NF2].
+    destruct (IHe1 NF1) as [s' [Hs [Ss _]]]. destruct (IHe2 NF2) as [en' [Hen [Sen _]]]. rewrite Hs, Hen. cbn [obind].
     eexists; split; [reflexivity|]. split; [|cbn; intros; discriminate].
     intro env. cbn [eval Model.eval]. rewrite Ss, Sen. reflexivity.
   - (* block *)
-    destruct IHe as [r' [Hr _]].
+    apply orb_false_iff in NF. destruct NF as [NF1 NF2].
+    destruct (IHe NF2) as [r' [Hr _]].
+    pose proof (Forall_mp _ _ _ _ H (existsb_false_Forall _ _ _ NF1)) as H'.
     set (g := fun st0 : str * expr * bool => obind (fold O (snd (fst st0))) (fun x' => Some (fst (fst st0), x', snd st0))).
     assert (Hg : Forall (fun x => exists x', g x = Some x' /\ True) st).
-    { eapply Forall_impl; [|exact H]. intros [[k x] m] [x' [Hx _]]. exists (k, x', m). unfold g. cbn [snd fst] in *.
+    { eapply Forall_impl; [|exact H']. intros [[k x] m] [x' [Hx _]]. exists (k, x', m). unfold g. cbn [snd fst] in *.
       rewrite Hx. cbn. auto. }
     destruct (fold_list_sound _ g _ st Hg) as [st' [Hs _]]. rewrite Hs. cbn [obind]. rewrite Hr. cbn [obind].
     eexists; split; [reflexivity|]. split; [reflexivity | cbn; intros; discriminate].
